@@ -135,32 +135,43 @@ def check(ctx):
         RE_MATCHERS = {"re.findall", "re.finditer", "re.fullmatch", "re.match", "re.search", "re.split", "re.sub", "re.subn"}
         re_calls = [c for _, c in calls_in(f) if (repo.dotted(f, c.func) or "") in RE_MATCHERS]
         names = {repo.dotted(f, c.func) for c in re_calls}
-        ok = names == {f"re.{f.name}"} and len(re_calls) == 2
+        ok = names == {f"re.{f.name}"} and len(re_calls) >= 2
         ctx.ob("SIB-17", f, f"re calls {sorted(names)}", f.node, ok,
                "scalar and vector branch both call re." + f.name if ok else
                f"{f.name} calls {sorted(names)} ({len(re_calls)} call(s)): one branch uses another re function",
                clause="what the same re function returns for that string")
-        if len(re_calls) == 2:
+        if len(re_calls) >= 2:
+            strp = "string"
+
             def shape(c):
-                pos = [norm(a) for a in c.args]
+                pos = []
+                for a in c.args:
+                    t = norm(a)
+                    # an element of the vector under a local name (s := string[i]; x = string[i])
+                    if isinstance(a, ast.Name) and a.id != strp:
+                        ds_ = defs_reaching(f, a.id, c)
+                        if ds_ and all(d.value is not None and norm(d.value).startswith(strp + "[") for d in ds_):
+                            t = norm(ds_[0].value)
+                    pos.append(t)
                 kws = {k.arg: norm(k.value) for k in c.keywords}
                 return pos, kws
-            (p1, k1), (p2, k2) = shape(re_calls[0]), shape(re_calls[1])
-            strp = "string"
-            same = k1 == k2 and len(p1) == len(p2) and all(a == b or (a == strp and b.startswith(strp + "[")) for a, b in zip(p1, p2))
-            ctx.ob("SIB-17", f, f"{p1} {k1} vs {p2} {k2}", re_calls[1], same,
-                   "both branches pass the same arguments (element string[i] in the loop)" if same else
-                   "scalar and vector branch pass different arguments to re", clause="scalar arguments behave like one-element vectors")
-            for p in f.params:
-                fw = all(p in pos or any(v == p for v in kws.values()) or (p == strp and any(x.startswith(strp) for x in pos))
-                         for pos, kws in ((p1, k1), (p2, k2)))
-                ctx.ob("SIB-17", f, f"parameter {p} forwarded in both branches", f.node, fw,
-                       f"{p} reaches re.{f.name}" if fw else f"parameter {p!r} does not reach re.{f.name} in one of the branches",
-                       nontrivial=False)
-            for k, v in list(k1.items()) + list(k2.items()):
-                ok = k == v
-                ctx.ob("SIB-17", f, f"{k}={v}", re_calls[0], ok, "keyword carries the parameter of the same name" if ok else
-                       f"keyword {k} receives {v}", nontrivial=False)
+            (p1, k1) = shape(re_calls[0])
+            for other in re_calls[1:]:
+                (p2, k2) = shape(other)
+                same = k1 == k2 and len(p1) == len(p2) and all(a == b or (a == strp and b.startswith(strp + "[")) for a, b in zip(p1, p2))
+                ctx.ob("SIB-17", f, f"{p1} {k1} vs {p2} {k2}", other, same,
+                       "both branches pass the same arguments (element string[i] in the loop)" if same else
+                       "scalar and vector branch pass different arguments to re", clause="scalar arguments behave like one-element vectors")
+                for p in f.params:
+                    fw = all(p in pos or any(v == p for v in kws.values()) or (p == strp and any(x.startswith(strp) for x in pos))
+                             for pos, kws in ((p1, k1), (p2, k2)))
+                    ctx.ob("SIB-17", f, f"parameter {p} forwarded in both branches", f.node, fw,
+                           f"{p} reaches re.{f.name}" if fw else f"parameter {p!r} does not reach re.{f.name} in one of the branches",
+                           nontrivial=False)
+                for k, v in list(k1.items()) + list(k2.items()):
+                    ok = k == v
+                    ctx.ob("SIB-17", f, f"{k}={v}", re_calls[0], ok, "keyword carries the parameter of the same name" if ok else
+                           f"keyword {k} receives {v}", nontrivial=False)
         loops = [n for n in ast.walk(f.node) if isinstance(n, ast.For)]
         preps = [n for n in body_nodes(f.node) if isinstance(n, ast.Assign) and isinstance(n.targets[0], ast.Tuple)
                  and len(n.targets[0].elts) == 2 and isinstance(n.value, ast.Call) and norm(n.value.func) == "_prep"]
@@ -184,7 +195,8 @@ def check(ctx):
         ok = len(preps) == 1 and any(norm(r.value).startswith(f"Vector.fast({outn}") for r in rets if r.value is not None)
         if len(loops) == 1:
             li = norm(loops[0].target)
-            st = [n for n in ast.walk(loops[0]) if isinstance(n, ast.Assign) and isinstance(n.targets[0], ast.Subscript)]
+            st = [n for n in ast.walk(loops[0]) if isinstance(n, ast.Assign) and isinstance(n.targets[0], ast.Subscript)
+                  and norm(n.targets[0].value) == outn]
             ok = ok and bool(st) and all(norm(x.targets[0]) == f"{outn}[{li}]" for x in st)
         ctx.ob("SIB-17", f, "out, na = _prep(...); return Vector.fast(out, ...)", f.node, ok,
                "missing positions keep the prepared default" if ok else "output is not the prepared array", nontrivial=False)
